@@ -6,7 +6,7 @@ earlier a_j) by one *form*:
 
     base   v = 2 * w + 1                        nothing to eliminate
     alias  v = w | v = -w | v + w = 0 | w - v = 0 | -v = w | 0 = v - w
-    const  v = 3 | 0 = v - 3 | v = p | v = 2 * p2 + k | v + 3 = 0 | v = 0
+    const  v = 3 | 0 = v - 3 | v = p | v = k | v = 2 * p2 + k | v + 3 = 0 | v = 0
     affine 2 * v = 4 * w | v = k * w | v = k2 * w + k | v - 2 * w = p | v = (w + 1) / 2
     ifelse v = if u > 0 then w else -w | v = if u > 0 then 2 * w else 3
 
@@ -59,6 +59,7 @@ FORMS = {
     "const-plus": (lambda v, w: ("eq", B("+", v, N(3)), N(0)), lambda w: Fraction(-3), "const"),
     "const-zero": (lambda v, w: ("eq", v, N(0)), lambda w: Fraction(0), "const"),
     "const-p": (lambda v, w: ("eq", v, V("p")), lambda w: PVAL["p"], "const"),
+    "const-k": (lambda v, w: ("eq", v, V("k")), lambda w: PVAL["k"], "const"),
     "const-pexpr": (lambda v, w: ("eq", v, B("+", B("*", N(2), V("p2")), V("k"))), lambda w: 2 * PVAL["p2"] + PVAL["k"], "const"),
     "factor": (lambda v, w: ("eq", B("*", N(2), v), B("*", N(4), w)), lambda w: 2 * w, "affine"),
     "scaled-k": (lambda v, w: ("eq", v, B("*", V("k"), w)), lambda w: PVAL["k"] * w, "affine"),
@@ -553,7 +554,7 @@ def dep_patterns(n):
 
 
 CORE_FORMS = ["alias", "alias-neg", "alias-sum0", "const", "const-zero", "factor"]
-PAIR_CORE = ["alias", "alias-neg", "const", "const-p", "factor", "ifelse"]
+PAIR_CORE = ["alias", "alias-diff0", "alias-neg", "const", "const-p", "const-k", "factor", "ifelse"]
 
 
 def core_option_sets():
